@@ -292,8 +292,9 @@ def next_states_writers(ctx):
     from . import shared
     pt = shared.solver_pointsto(ctx)
     ws = set()
+    from .C13 import _construction_only
     for s in pt.field_stores:
-        if s.field == "next_states" and s.func.name != "__init__":
+        if s.field == "next_states" and s.func.name != "__init__" and not _construction_only(ctx, s.func, 0):
             ws.add(s.func)
     ns_objs = pt.get(("field", "next_states"))
     for e in pt.effects:
